@@ -24,7 +24,9 @@ TARGETS["seqlock"] = dict(src="scenarios/seqlock.cpp", defs=[])
 
 TARGETS["leftright"] = dict(src="scenarios/leftright.cpp", defs=[])
 
-SIMPLE_FAMILIES = {"deque": ["C12"], "seqlock": ["C14"], "leftright": ["C13"]}
+TARGETS["slots"] = dict(src="scenarios/slots.cpp", defs=[])
+
+SIMPLE_FAMILIES = {"deque": ["C12"], "seqlock": ["C14"], "leftright": ["C13"], "slots": ["C18"]}
 GENERIC_KINDS = {"use-after-free", "wild-access", "double-free", "bad-free", "crash", "hang", "deadlock", "watchdog"}
 RACE_KINDS = {"race", "race-free", "race-free-vs-atomic"}
 
@@ -483,11 +485,63 @@ def plan_c16():
 
 PLANS["C16"] = plan_c16()
 
+def plan_c18():
+    """Slot accounting: random long sequences racing a retirer (run_*), bounded-exhaustive sequences cut into 16 slices (exh*)."""
+    def targets(tier):
+        return [("slots", "xrt-prod")]
+
+    def jobs(tier, seed, list_configs):
+        jobs = []
+        cfgs = list_configs("slots", "xrt-prod")
+        execs = 6000 if tier == "quick" else 40000
+        for c in cfgs:
+            if c.startswith("run_"):
+                chunks = 1 if tier == "quick" else 4
+                for k in range(chunks):
+                    jobs.append(dict(target="slots", variant="xrt-prod", timeout=3600,
+                                     args=["--cfg", c, "--mode", "sc", "--seed", str(seed * 100 + k), "--execs", str(execs // chunks)]))
+            elif c.startswith("exh2_") or (tier != "quick" and c.startswith("exh3_")):
+                # 16 executions = the 16 slices of the enumeration; the seed only selects the schedule strategy of the single thread
+                jobs.append(dict(target="slots", variant="xrt-prod", timeout=3600,
+                                 args=["--cfg", c, "--mode", "sc", "--seed", str(seed), "--execs", "16"]))
+        if tier != "quick":
+            for c in cfgs:
+                if c.startswith("run_"):
+                    jobs.append(dict(target="slots", variant="xrt-prod", timeout=3600,
+                                     args=["--cfg", c, "--mode", "weak", "--seed", str(seed + 7), "--execs", "2000", "--window", "64"]))
+        return jobs
+
+    def gates(tier, agg, counters, per_config, distinct):
+        msgs = []
+        if agg["execs"] == 0:
+            msgs.append("no executions")
+        for c, minimum in {"guard_ops": 100000, "exceptions": 1000, "ops_with_K_other_guards": 10000, "exhaustive_sequences": 100000}.items():
+            if counters.get(c, 0) < minimum:
+                msgs.append("counter %s = %d < %d" % (c, counters.get(c, 0), minimum))
+        return msgs
+
+    return dict(targets=targets, jobs=jobs, gates=gates, assumptions=ASSUME_XRT, level="exploration",
+                rule="each evaluation = either (run_*) two generations of 1-2 holder threads executing 8-120 random guard_ptr operations (acquire, "
+                     "acquire_if_equal, reset, copy/move assignment and construction, construction from marked_ptr, swap, self-assignment) over K+2 guards while "
+                     "another thread keeps replacing and retiring the nodes (scan after every retirement), or (exh*) one of 16 slices of ALL sequences of 2 (3 for "
+                     "K<=2) operations from the start states 'no guard / K-1 guards / K guards hold a node'; hazard_pointer and hazard_eras, static and dynamic "
+                     "strategy, K in {1,2,3,5}. A model of which guards protect what decides for every operation whether bad_hazard_*_alloc must not (fewer than K "
+                     "other protecting guards, or dynamic strategy) or must (hazard_pointer static with all K in use) be thrown, that a failed operation leaves every "
+                     "other guard untouched, and a registry flags nodes destroyed while a guard protects them")
+
+
+PLANS["C18"] = plan_c18()
+
 # ---------------------------------------------------------------------------------------------------- manifest metadata
 NOT_YET = {}
 _LEVEL_NOTE = ("Trusted base: the xrt runtime (scheduler, vector clocks, heap shadow) and the sequential models in monitors/; gcc 12 -O1 "
                "TSan-instrumented build of the header-only library from /repo's working tree; executions explored = seeded sample, not all schedules.")
 META = {
+    "C18": dict(design_ref="DESIGN.md 5/C18", technique="runtime monitoring: reference-model monitor of slot ownership (exception expected / forbidden per operation) over bounded-exhaustive and random guard operation sequences + destroyed-while-guarded registry + heap shadow",
+                level_text="Every operation of every enumerated or generated sequence is judged by the model: no bad_hazard_*_alloc while fewer than K other guards protect "
+                           "something (slot leaks, slots held by empty guards), the exception when hazard_pointer's K slots are all in use, untouched guards after a failed "
+                           "operation, protection of every guarded node against a concurrently scanning thread, across thread exit and control-block reuse.",
+                level_note=_LEVEL_NOTE),
     "C16": dict(design_ref="DESIGN.md 5/C16", technique="runtime monitoring: solo-run step counter under the controlled scheduler (all other threads frozen mid-operation), bounded-progress restatement of lock-freedom",
                 level_text="Lock-freedom is restated as bounded solo progress: from sampled reachable intermediate states the victim must finish its operation within 20 000 of "
                            "its own steps while everybody else is stopped; the observed maximum per operation kind is reported so that the margin is visible.",
